@@ -1,7 +1,7 @@
 (* C18 - Static data and modifier plugins apply exactly when and in the order configured.
    Only theorem statements, each closed by an exact lemma, and Print Assumptions. *)
 Require Import Verif.Common.Base Verif.Common.Json.
-Require Import Verif.Model.C18 Verif.Spec.C18 Verif.Proof.C18 Verif.Proof.C18_b.
+Require Import Verif.Model.C18 Verif.Spec.C18 Verif.Proof.C18 Verif.Proof.C18_b Verif.Proof.C18_c.
 Require Import Sorted.
 
 (* ---------------- static data ---------------- *)
@@ -231,6 +231,69 @@ Proof.
 Qed.
 Print Assumptions C18_model_meets_oracle.
 
+(* ---------------- values handed from modifier to modifier ---------------- *)
+
+(* the loop of executeRequest/ResponseModifiers on values, for every list and initial value:
+   the invoked modifiers are those of the order model, the i-th of them sees the initial
+   value followed by the tags of the modifying modifiers before it (a non-wrapper result
+   and an unchanged wrapper hand the previous value on), and the value left after the loop
+   is the initial one plus the tags of all modifying modifiers - none if one failed *)
+Theorem C18_threading : forall lv l v,
+  thread lv l v = (seen_decl lv l v, out_decl lv l v) /\
+  map fst (fst (thread lv l v)) = called l.
+Proof. intros lv l v. split; [apply thread_decl|apply thread_called]. Qed.
+Print Assumptions C18_threading.
+
+(* the value seen at configured index i, explicitly *)
+Theorem C18_seen_at : forall lv l v i p b,
+  Forall notfail (firstn i l) -> nth_error l i = Some (p, b) ->
+  nth_error (seen_decl lv l v) i = Some (p, (v ++ tags lv (firstn i l))%list).
+Proof. exact seen_at. Qed.
+Print Assumptions C18_seen_at.
+
+(* one middleware on values is the declarative layer: the backend side is called with the
+   value left by the request modifiers, the response modifiers start from the inner
+   response's value, the caller gets the value they leave *)
+Theorem C18_values_layer : forall lv R s inner v,
+  plugin_vmw lv R s inner v =
+  vlayer_decl lv (configured_req R (shape_names s)) (configured_resp R (shape_names s)) inner v.
+Proof. exact plugin_vmw_decl. Qed.
+Print Assumptions C18_values_layer.
+
+(* the whole stack when nothing fails: the backend receives the client's value plus the
+   endpoint's then the backend's request tags; the caller receives the backend's value plus
+   the backend's then the endpoint's response tags *)
+Theorem C18_values_stack : forall R pe pb v t0,
+  Forall notfail (configured_req R (shape_names pe)) -> Forall notfail (configured_resp R (shape_names pe)) ->
+  Forall notfail (configured_req R (shape_names pb)) -> Forall notfail (configured_resp R (shape_names pb)) ->
+  vstack R pe pb (Some t0) v =
+  ((vreq LEndpoint (seen_decl LEndpoint (configured_req R (shape_names pe)) v) ++
+    (vreq LBackend (seen_decl LBackend (configured_req R (shape_names pb)) (v ++ tags LEndpoint (configured_req R (shape_names pe)))) ++
+     [VBackend ((v ++ tags LEndpoint (configured_req R (shape_names pe))) ++ tags LBackend (configured_req R (shape_names pb)))] ++
+     vresp LBackend (seen_decl LBackend (configured_resp R (shape_names pb)) t0)) ++
+    vresp LEndpoint (seen_decl LEndpoint (configured_resp R (shape_names pe)) (t0 ++ tags LBackend (configured_resp R (shape_names pb)))))%list,
+   VRet ((t0 ++ tags LBackend (configured_resp R (shape_names pb))) ++ tags LEndpoint (configured_resp R (shape_names pe)))%list).
+Proof. exact vstack_all_ok. Qed.
+Print Assumptions C18_values_stack.
+
+(* forgetting the values of a run gives exactly the call log of the order model (so
+   C18_order and its corollaries speak about the same run) *)
+Theorem C18_values_refine_order : forall lv rq rs inner v li ri x,
+  inner (v ++ tags lv rq)%list = (li, ri) ->
+  map erase (fst (plugin_vrun lv rq rs inner v)) =
+  fst (plugin_run lv rq rs (map erase li,
+                            match ri with VRet _ => ORet (Some x) ENone | VNone => ORet None ENone end)).
+Proof. exact vrun_refines_order. Qed.
+Print Assumptions C18_values_refine_order.
+
+(* oracle of the value cases: sound (it pins the observation to the declarative stack)
+   and met by the model, for every input *)
+Theorem C18_values_oracle : forall R pe pb v0 t0,
+  (forall obs, thread_spec_b R pe pb v0 t0 obs = true -> obs = vstack_decl R pe pb t0 v0) /\
+  thread_spec_b R pe pb v0 t0 (vstack R pe pb t0 v0) = true.
+Proof. intros. split; [intros obs; apply thread_spec_b_sound|apply thread_model_meets_oracle]. Qed.
+Print Assumptions C18_values_oracle.
+
 (* ---------------- non-vacuity ---------------- *)
 Definition exR : registry := [("rq0", RReq); ("rq1", RReq); ("rs0", RResp); ("rs1", RResp); ("bo0", RBoth)].
 Definition exResp : option resp := Some {| r_data := Some [("a", JNum "1")]; r_complete := true |}.
@@ -308,4 +371,16 @@ Example C18_ex_nil_response_stack :
   endpoint_stack (ShOk [("s", JBool true)] (VStr "incomplete")) exR
                  (PNames [(CStr "rs0", BOk)]) (PNames [(CStr "rs1", BOk)]) None ENone
   = ([EvBackend], ORet (Some {| r_data := Some [("s", JBool true)]; r_complete := false |}) ENone).
+Proof. vm_compute. reflexivity. Qed.
+
+(* values: rq0 modifies, rq1 hands its input on, a non-wrapper result is skipped, rs0/rs1 modify *)
+Example C18_ex_values :
+  vstack exR (PNames [(CStr "rs1", BModify); (CStr "rq0", BModify); (CStr "rq1", BIgnored); (CStr "rs0", BModify)])
+         (PNames [(CStr "rq1", BModify); (CStr "rs0", BOk)]) (Some [(LBackend, 99)]) [(LEndpoint, 77)]
+  = ([VReq LEndpoint 1 [(LEndpoint, 77)]; VReq LEndpoint 2 [(LEndpoint, 77); (LEndpoint, 1)];
+      VReq LBackend 0 [(LEndpoint, 77); (LEndpoint, 1)];
+      VBackend [(LEndpoint, 77); (LEndpoint, 1); (LBackend, 0)];
+      VResp LBackend 1 [(LBackend, 99)];
+      VResp LEndpoint 0 [(LBackend, 99)]; VResp LEndpoint 3 [(LBackend, 99); (LEndpoint, 0)]],
+     VRet [(LBackend, 99); (LEndpoint, 0); (LEndpoint, 3)]).
 Proof. vm_compute. reflexivity. Qed.
